@@ -4,7 +4,7 @@ if "FILE_JOB" not in globals():
     _p7 = _os7.path.join(_os7.path.dirname(_os7.path.abspath(_f)), "spec_C18.py")
     exec(compile(open(_p7).read(), _p7, "exec"), globals())
 C07_FILE_JOBS = [
-    dict(name="reader-edge-chunk", harness="C07_file.cpp", entries=["harness_edge_chunk"], shards=[{0: 1, 1: 1}, {0: 2, 1: 1}, {0: 4, 1: 1}], timeout=600,
+    dict(name="reader-edge-chunk", harness="C07_file.cpp", entries=["harness_edge_chunk"], shards=[{0: 1, 1: 1}, {0: 2, 1: 1}, {0: 4, 1: 1}], timeout=600, tiers=["thorough"],
          bounds="read_topo_chunk on a one-edge TOPO chunk, 4 vertices read so far: symbolic span.first, handle_encoding byte, handle_offset (64 bit) and handle bytes: "
                 "no memory error; accepted => exactly one edge whose vertex handles are < 4", **FILE_JOB),
     dict(name="reader-face-then-cell", harness="C07_file.cpp", entries=["harness_face_then_cell"], shards=[{1: 1}, {1: 0}], timeout=900,
